@@ -65,7 +65,7 @@ theorem skipAhead_spec (n : Nat) (fs : List FiberIn)
 
 /-- **Leader-follower**: fed the leader trace of leader-follower intersections, in any
     batching, the total is the number of elements the leader presented. -/
-theorem leaderFollower_spec (n : Nat) (groups : List (List FiberIn)) :
+theorem c19_leaderFollower_spec (n : Nat) (groups : List (List FiberIn)) :
     lfTotal (leaderBatchesOf n groups) = (lfSpecAll groups.flatten : Int) :=
   lfTotal_leader n groups
 
@@ -111,13 +111,13 @@ theorem oneShot_counterexample :
   · simp [wit, tfSpecAll, tfSpec, mergeLabels]
   · simp [wit, saSpecAll, saSpec, mergeLabels, sameSideRuns]
   · simp [wit, tfTotal, batchesOf, groupRows, FiberIn.rows, andUses, mkRows, feed2, tfAdd, startPts,
-      TRow.point, TRow.len, tfLoop, lexLt, endOf, List.zipIdx]
+      TRow.point, TRow.len, tfLoop, c19_lexLt, endOf, List.zipIdx]
   · simp [wit, saTotal, batchesOf, groupRows, FiberIn.rows, andUses, mkRows, feed2, saAdd, startPts,
-      TRow.point, TRow.len, saLoop, lexLt, endOf, fiberOf, List.zipIdx]
+      TRow.point, TRow.len, saLoop, c19_lexLt, endOf, fiberOf, List.zipIdx]
   · simp [wit, tfTotal, batchesOf, groupRows, FiberIn.rows, andUses, mkRows, feed2, tfAdd, startPts,
-      TRow.point, TRow.len, tfLoop, lexLt, endOf, List.zipIdx]
+      TRow.point, TRow.len, tfLoop, c19_lexLt, endOf, List.zipIdx]
   · simp [wit, saTotal, batchesOf, groupRows, FiberIn.rows, andUses, mkRows, feed2, saAdd, startPts,
-      TRow.point, TRow.len, saLoop, lexLt, endOf, fiberOf, List.zipIdx]
+      TRow.point, TRow.len, saLoop, c19_lexLt, endOf, fiberOf, List.zipIdx]
 
 /-- a fiber with exactly one empty operand in front of another one: the call raises -/
 theorem oneShot_assertion_counterexample :
@@ -187,7 +187,7 @@ theorem roundsCost_round (radix : Option Nat) (lat n k : Nat) :
 theorem swaps_infinite (dflt : Int) (e : Nat) (radix : Option Nat) (hr : RadixOk radix) (depth : Nat)
     (t : Tree Int Int (e + 2 + depth)) (hwf : wfB (e + 2 + depth) t = true) :
     numSwapsTree dflt e radix Lat.inf depth t = ((mergeNodes dflt e depth t).map (roundsInf radix)).sum := by
-  have hwf := (wfB_iff _ t).1 hwf
+  have hwf := (c19_wfB_iff _ t).1 hwf
   rw [numSwapsTree_eq_nodes]
   congr 1
   apply List.map_congr_left
